@@ -69,7 +69,10 @@ class Parser:
         # past an end-of-file token.
         self._current_token = Token(TokenTypes.UNKNOWN)
         self.next_token()
-        return self._script()
+        try:
+            return self._script()
+        except RecursionError:
+            return self.trigger_error('Too many nested levels.')
 
     def get_program(self):
         return self._code_gen.program
